@@ -93,8 +93,11 @@ func Cover(label string) { st.covers[label] = true }
 // Known marks the current input as lying inside the region of a recorded
 // known finding when c holds.
 func Known(key string, c bool) {
+	// a later call with the same key replaces the earlier condition
 	if c {
 		st.knowns[key] = true
+	} else {
+		delete(st.knowns, key)
 	}
 }
 
